@@ -20,10 +20,12 @@ DELAY_NS = [0, 1, 2]
 NKINDS = 5                          # 0 none 1 one child 2 two children 3 generator 4 cancel-other + child
 
 
-def _params(sym, tier):
+def _params(sym, tier, with_unscheduled=False):
     n = 3
     T = 2
     P = {"n": n, "T": T}
+    # events that are created (they take a creation index) but never scheduled
+    P["unscheduled"] = 2 * sym.choice("unscheduled_events_created", 2) if with_unscheduled else 0
     P["mode"] = sym.choice("mode", 3)               # 0 no end_time (auto-terminate), 1 end_time fast loop, 2 end_time + control (instrumented loop)
     P["kind"] = [sym.choice("kind0", NKINDS), sym.choice("kind1", NKINDS)] + [0] * (n - 2)
     auto = P["mode"] == 0
@@ -177,6 +179,9 @@ class Model:
         P = self.P
         for i in range(P["n"]):
             self.pre.append(mk_event(P["t"][i], f"p{i}", self.ents[i % 2], P["daemon"][i]))
+            if i == 0:
+                for _j in range(P.get("unscheduled", 0)):
+                    mk_event(0, "never_scheduled", self.ents[0])
         self.sim.schedule(self.pre)
         for i in range(P["n"]):
             if P["cancel"][i]:
@@ -188,7 +193,7 @@ class Model:
 
 def scenario(sym, tier):
     r = Result()
-    P = _params(sym, tier)
+    P = _params(sym, tier, with_unscheduled=True)
     n = P["n"]
     m = Model(P)
     sim = m.make_sim()
@@ -302,7 +307,7 @@ HARNESSES = [
                    "Simulation._push_new_events", "EventHeap.push", "EventHeap.pop", "EventHeap.has_primary_events",
                    "Event.__init__", "Event.__lt__", "Event.invoke", "Event.cancel", "ProcessContinuation.invoke",
                    "Instant.__lt__/__eq__/__add__", "Clock.update"],
-        bounds=lambda tier: {"pre_run_events": 3, "time_range_ns": [0, 2], "flag combinations": "quick: three focused families (order / daemons / cancellation); thorough: full product",
+        bounds=lambda tier: {"pre_run_events": 3, "unscheduled events created in between": [0, 2], "time_range_ns": [0, 2], "flag combinations": "quick: three focused families (order / daemons / cancellation); thorough: full product",
                              "spawning_handlers": 2, "children_per_handler": "<=2 (+1 process continuation)",
                              "child_offset_ns": [-1, 1], "end_time": "none | Instant(e), e in [0,T+2]",
                              "loops": ["instrumented+auto-terminate", "fast", "instrumented+end_time"]},
